@@ -5,7 +5,7 @@ from hypothesis import given, strategies as st
 from vf import common
 from vf import strategies as vs
 from vf.common import Violation
-from vf.world import interfere, make_sketch, snapshot, snap_diff, snap_equal, sut, windows
+from vf.world import interfere, make_sketch, numba_seed, snapshot, snap_diff, snap_equal, sut, windows
 
 RULE = (
     "Hypothesis-generated cases for all five sketch classes (count-min linear/log16/log8 with width in {1,2,3,5,16} and depth 1..3, log "
@@ -19,7 +19,7 @@ RULE = (
     "Non-trivial: the call contains a repeated key or a key colliding with another key of the call, or an ngram with n < len. Distinct = distinct case."
 )
 ASSUMPTIONS = [
-    "identical random draws are arranged by overwriting rand_nums with the same 2048 PRNG values and setting rand_ptr=0 on all three sketches; totals are bounded so no refill happens",
+    "identical random draws are arranged by overwriting rand_nums with the same 2048 PRNG values and setting rand_ptr=0 on all three sketches; when a call needs more than the 2048 planted draws the refill comes from Numba's generator, which is re-seeded identically before each of the three sides",
     "HyperLogLog ignores multiplicities by documentation, so add(key,v) is compared with add(key)",
 ]
 
@@ -42,7 +42,7 @@ def cases(draw):
     log = cfg["kind"] in ("log8", "log16")
     pool = draw(st.lists(KEYS, min_size=2, max_size=6))
     key = st.sampled_from(pool)
-    vmax = 300 if log else 10**4
+    vmax = 3000 if log else 10**4  # log: may cross the 2048-draw batch boundary (Numba's generator is re-seeded per side)
     val = st.one_of(st.sampled_from([1, 1, 2, 3, 16, 17, 255, 256, 257]), st.integers(1, 40), st.integers(1, vmax))
     pre = draw(st.lists(st.tuples(key, st.integers(1, 20)), min_size=0, max_size=6))
     kind = draw(st.sampled_from(["update_list", "update_list", "update_dict", "update_dict", "add", "add", "add_ngram", "add_ngram", "update_ngram", "update_ngram", "update_reentrant", "update_interrupted"]))
@@ -62,7 +62,7 @@ def cases(draw):
             tot = 0
             keep = []
             for k, v in op["items"]:
-                if tot + v <= 1200:
+                if tot + v <= 7000:
                     keep.append([k, v])
                     tot += v
             op["items"] = keep
@@ -76,7 +76,7 @@ def cases(draw):
         op["keys"] = draw(st.lists(st.one_of(key, vs.biased_bytes(0, 24), vs.biased_bytes(0, 24), st.binary(min_size=254, max_size=260)), min_size=0, max_size=4))
         op["n"] = draw(st.integers(1, 9))
     cont = draw(st.lists(st.tuples(key, st.integers(1, 30)), min_size=6, max_size=6))
-    return {"cfg": cfg, "pre": pre, "op": op, "cont": cont, "rs": draw(st.integers(0, 2**32 - 1))}
+    return {"cfg": cfg, "pre": pre, "op": op, "cont": cont, "rs": draw(st.integers(0, 2**31 - 2)), "as_counter": draw(st.booleans())}
 
 
 class _Interrupted(Exception):
@@ -159,6 +159,8 @@ def run_case(case):
             sk.rand_ptr = 0
     op = case["op"]
     interfere(cfg)
+    if log:
+        numba_seed(case["rs"])  # refills inside a kernel come from Numba's generator: same stream for each side
     # A: the compound call
     if op["op"] == "update_reentrant":
         def gen():
@@ -184,7 +186,14 @@ def run_case(case):
     elif op["op"] == "update_list":
         sut(A.update, list(op["keys"]))
     elif op["op"] == "update_dict":
-        sut(A.update, {k: v for k, v in op["items"]})
+        d_ = {k: v for k, v in op["items"]}
+        if case.get("as_counter"):
+            from collections import Counter as _Counter
+
+            c_ = _Counter()
+            c_.update(d_)  # same insertion order as the dict; a Counter IS a dict, so update() must treat it alike
+            d_ = c_
+        sut(A.update, d_)
     elif op["op"] == "add":
         sut(A.add, op["k"], op["v"])
     elif op["op"] == "add_ngram":
@@ -192,8 +201,12 @@ def run_case(case):
     else:
         sut(A.update_ngram, list(op["keys"]), op["n"])
     interfere(cfg)
+    if log:
+        numba_seed(case["rs"])
     for c in per_item(op, kind):
         call(B, c)
+    if log:
+        numba_seed(case["rs"])
     for c in singles(op, kind):
         call(C, c)
 
@@ -205,10 +218,10 @@ def run_case(case):
             raise Violation(f"{kind} {op['op']}: compound call and loop of single unit adds differ in {snap_diff(sa, sc)} {stage}", f"{op['op']}-vs-singles")
 
     compare("right after the call")
-    if log and int(A.rand_ptr) > 1900:
-        return False  # would refill during the continuation: not comparable (bounded by construction, counted)
-    for k, v in case["cont"]:
-        for sk in (A, B, C):
+    for sk in (A, B, C):
+        if log:
+            numba_seed(case["rs"] + 1)
+        for k, v in case["cont"]:
             sut(sk.add, k, v)
     compare("after a common continuation (own draw batches)")
     if kind in ("linear", "log8", "log16"):
@@ -246,7 +259,7 @@ def _shard(arg):
         ok = run_case(case)
         rec.case(case, bool(ok) and nontrivial(case), [f"kind={case['cfg']['kind']}", f"op={case['op']['op']}"] + ([] if ok else ["skipped_near_refill"]))
 
-    common.run_given(test, common.derive_seed(seed, "C12", shard), n_examples, holder, rec)
+    common.run_given(test, common.derive_seed(seed, "C12", shard), n_examples, holder, rec, retry=run_case)
     return rec
 
 
